@@ -52,13 +52,7 @@ Theorem content_preserved_modulo_whitespace :
          = filter (fun c => negb (is_space c)) message
       /\ forall p, In p (pieces_of wrap w message) ->
            (Z.of_nat (length (fmt ++ p)) + 2 <= limit_of nicklen fmt len)%Z).
-Proof.
-  intros is_space wrap Hlf Hw Hc nicklen msgType user message len fmt w.
-  destruct (send_with_cases wrap nicklen msgType user message len) as [H | [H1 H2]]; [left; exact H|].
-  right. split; [exact H1|]. split; [exact H2|]. split.
-  - exact (content_preserved is_space Hlf wrap Hc nicklen msgType user message len H1).
-  - exact (chars_le_limit wrap Hw nicklen msgType user message len H1).
-Qed.
+Proof. exact send_summary. Qed.
 Print Assumptions content_preserved_modulo_whitespace.
 
 (** FULL STATEMENT (false, finding F17): every sent line is at most [limit] OCTETS.
